@@ -120,6 +120,22 @@ def readRxnRad (natoms : Str → Nat) (text : Str) : ReadRadOut :=
         if r.isEmpty && a.isEmpty && p.isEmpty then .error "ValueError"
         else .roles r a p (fl.take r.length) ((fl.drop r.length).take a.length) (fl.drop (r.length + a.length))
 
+/-- `d.split('.')` of a non-empty role has an empty piece ("two dots in line") -/
+def hasEmptyPiece (d : Str) : Bool := !d.isEmpty && (splitOn chDot d).any (·.isEmpty)
+
+/-- the reader option `ignore`: with `ignore=False` an empty piece in a role is `ValueError('invalid reaction smiles.
+    two dots in line')` (raised while the roles are split, i.e. before contraction, parsing and the radical stage; a wrong
+    number of `>` is a `ValueError` in both modes) instead of being skipped -/
+def readRxnRadOpt (ignore : Bool) (natoms : Str → Nat) (text : Str) : ReadRadOut :=
+  match splitWs text with
+  | [] => .error "ValueError"
+  | smi :: _ =>
+    if !ignore && smi.contains chGt &&
+        (match splitOn chGt smi with
+         | [r, a, p] => hasEmptyPiece r || hasEmptyPiece a || hasEmptyPiece p
+         | _ => false) then .error "ValueError"
+    else readRxnRad natoms text
+
 /-- atom count of a molecule string from a table of its `.`-pieces (the parser's atom list is additive over `.`);
     a piece missing from the table counts 0 -/
 def natomsOf (tbl : List (Str × Nat)) (s : Str) : Nat :=
